@@ -390,9 +390,17 @@ pub fn oracle_buildseq(words: &[&str]) -> String {
     };
     let mut b = MessageBuilder::new();
     let mut last = String::new();
-    for m in &msgs {
+    for (i, m) in msgs.iter().enumerate() {
         let r = std::panic::catch_unwind(std::panic::AssertUnwindSafe(|| res_text(b.build_message(m))));
         last = r.unwrap_or_else(|_| "PANIC".into());
+        // C09: every frame a (re)used builder returns is well formed
+        if let (Some(fr), Some(n)) = (unhex(&last), m.number()) {
+            if !last.starts_with("ERR") && last != "PANIC" {
+                if let Err(e) = frame_wellformed(&fr, n) {
+                    return format!("FAIL C09 frame {} of the sequence: {}", i + 1, e);
+                }
+            }
+        }
     }
     let mut fresh = MessageBuilder::new();
     let exp = res_text(fresh.build_message(msgs.last().unwrap()));
